@@ -281,6 +281,30 @@ def run(ctx, prog):
         return 'explicit default network kept'
     A.require('normalize/default-network-omitted-only', paths, r_nz, replay=R('[normal]'))
 
+    # the two accessors are the two halves of denormalized_components(method id) - on every path, through nothing else (no shortcut
+    # that guesses the shape of the method id: a network name may itself look like the start of a tag)
+    for acc, idx_ in (('network_str', 0), ('tag_str', 1)):
+        fa = prog.one(IMPL + acc + r'$')
+        apaths, aex = A.paths(fa, inline=IMPL + r'(?!denormalized_components$|method_id$|network_str$|tag_str$)\w+$')
+
+        def r_acc(p, acc=acc, idx_=idx_):
+            if p.kind != 'return':
+                return 'panic ' + p.msg
+            dc = p.find_calls(r'denormalized_components$')
+            if len(dc) != 1:
+                return '%s is not one call of denormalized_components on every path' % acc
+            a = dc[0].args[0]
+            if not (apps(a, r'method_id$') and mentions(a, r'^self$')):
+                return 'components are not taken from the whole method id'
+            t = strip(p.term())
+            if t != ('field', dc[0].ret, idx_, ''):
+                return '%s is not component %d of denormalized_components(method id)' % (acc, idx_)
+            other = [c_ for c_ in p.calls if re.search(r'starts_with|strip_prefix|str>::find$|split|contains', c_.name)]
+            if other:
+                return '%s examines the method id itself' % acc
+            return None
+        A.require('%s/is-its-half-of-denormalized_components-on-every-path' % acc, apaths, r_acc, replay=R('[normal]'))
+
     # accessors recompose
     f = prog.one(IMPL + r'denormalized_components$')
     paths, ex = A.paths(f, inline=IMPL + r'denormalized_components::\{closure')
@@ -381,7 +405,7 @@ def main(ctx):
     import derives
     guarded(ctx, 'structural comparison of IotaDID', 'M', lambda: derives.derived_impls(
         ctx, prog, 'IotaDID/eq-ord-hash-are-the-derived-ones', r'identity_iota_core/src/did/iota_did\.rs', ['iota_did.rs'],
-        {'scenario': 'iota_did', 'cex': {'only': '[case]'}}, methods=('eq', 'ne', 'partial_cmp', 'cmp', 'hash')))
+        [{'scenario': 'iota_did', 'cex': {'only': '[case]'}}, {'scenario': 'iota_did', 'cex': {'only': '[cmp]'}}], methods=('eq', 'ne', 'partial_cmp', 'cmp', 'hash')))
 
     def core_cmp():
         prog3, info3 = load(['identity_did'])
